@@ -298,24 +298,26 @@ func zzH_C15_direct() {
 	if unit < 2 {
 		n := zzInt("vlen", 0, zzParam("L"))
 		v := zzBytes("v", n)
+		// the output buffer has spare capacity behind its length (a length-limited view of a larger
+		// block); the library indicates the splice position relative to the end of the slice it was given
 		spare := zzInt("spare", 0, 64)
-		// the library indicates the splice position relative to the END OF THE SLICE it was given
-		data := w.Malloc(4 + n)
-		view := data[: 4+n : 4+n]
-		_ = spare
+		buf := zzBytesCap("dst", 4+n, 4+n+spare)
+		dw := &zzDirectW{}
 		var wn int
 		plain := zzBytes("plain", 4+n)
 		if unit == 0 {
-			wn = thrift.Binary.WriteBinaryNocopy(view, w, v)
+			wn = thrift.Binary.WriteBinaryNocopy(buf, dw, v)
 			thrift.Binary.WriteBinary(plain, v)
 			zzAssert(thrift.Binary.BinaryLengthNocopy(v) == thrift.Binary.BinaryLength(v), "no-copy length differs")
 		} else {
-			wn = thrift.Binary.WriteStringNocopy(view, w, string(v))
+			wn = thrift.Binary.WriteStringNocopy(buf, dw, string(v))
 			thrift.Binary.WriteString(plain, string(v))
 			zzAssert(thrift.Binary.StringLengthNocopy(string(v)) == thrift.Binary.StringLength(string(v)), "no-copy length differs")
 		}
-		zzAssert(wn <= 4+n, "no-copy writer reports more bytes than the advertised length")
-		zzAssertEqBytes(w.Bytes(), plain, "spliced no-copy stream differs from the copying path")
+		zzAssert(zzAnd(wn >= 4, wn <= 4+n), "no-copy writer reports an impossible buffered length")
+		if wn >= 4 && wn <= 4+n {
+			zzAssertEqBytes(zzSplice(buf, wn, dw), plain, "spliced no-copy stream differs from the copying path")
+		}
 		zzReach("done")
 		return
 	}
@@ -336,4 +338,35 @@ func zzH_C15_direct() {
 	zzAssert(n <= l, "no-copy path reports more bytes than the advertised length")
 	zzAssertEqBytes(w.Bytes(), plain, "spliced no-copy stream differs from the copying path (BaseResp)")
 	zzReach("done")
+}
+
+// zzDirectW records direct writes together with the position the library indicates
+// (remainCap = number of bytes between the splice point and the end of the slice it was given).
+type zzDirectW struct {
+	pieces [][]byte
+	rem    []int
+}
+
+func (w *zzDirectW) WriteDirect(b []byte, remainCap int) error {
+	w.pieces = append(w.pieces, b)
+	w.rem = append(w.rem, remainCap)
+	return nil
+}
+
+// zzSplice rebuilds the stream: buffered bytes buf[:nbuf] with each direct piece inserted at
+// len(buf)-remainCap.
+func zzSplice(buf []byte, nbuf int, w *zzDirectW) []byte {
+	var out []byte
+	start := 0
+	for i := range w.pieces {
+		end := len(buf) - w.rem[i]
+		zzAssert(zzAnd(end >= start, end <= nbuf), "indicated splice position lies outside the buffered bytes")
+		if end < start || end > nbuf {
+			return out
+		}
+		out = append(out, buf[start:end]...)
+		out = append(out, w.pieces[i]...)
+		start = end
+	}
+	return append(out, buf[start:nbuf]...)
 }
